@@ -586,6 +586,37 @@ impl fmt::Debug for InflightBlocks {
     }
 }
 
+#[cfg(feature = "verif-hooks")]
+impl InflightBlocks {
+    /// verif hook: read-only dump of (per-peer block sets, per-block (peer, request time),
+    /// traced blocks, restart number)
+    #[allow(clippy::type_complexity)]
+    pub fn verif_dump(
+        &self,
+    ) -> (
+        Vec<(PeerIndex, Vec<BlockNumberAndHash>)>,
+        Vec<(BlockNumberAndHash, PeerIndex, u64)>,
+        Vec<(BlockNumberAndHash, u64)>,
+        BlockNumber,
+    ) {
+        (
+            self.download_schedulers
+                .iter()
+                .map(|(p, d)| (*p, d.hashes.iter().cloned().collect()))
+                .collect(),
+            self.inflight_states
+                .iter()
+                .map(|(k, v)| (k.clone(), v.peer, v.timestamp))
+                .collect(),
+            self.trace_number
+                .iter()
+                .map(|(k, v)| (k.clone(), *v))
+                .collect(),
+            self.restart_number,
+        )
+    }
+}
+
 impl InflightBlocks {
     pub fn blocks_iter(&self) -> impl Iterator<Item = (&PeerIndex, &HashSet<BlockNumberAndHash>)> {
         self.download_schedulers.iter().map(|(k, v)| (k, &v.hashes))
